@@ -1,3 +1,4 @@
+import CheetahModel.Proofs.DipoleCode
 import CheetahModel.Proofs.Conj
 import CheetahModel.Proofs.SemLawful
 import CheetahModel.Batch
@@ -6,8 +7,9 @@ import CheetahModel.Batch
 
 Proved: the whole-tensor shortcuts `if torch.any(tilt != 0)` and `if torch.all(misalignment == 0)` are
 the identity on their guards, so the batched maps are the per-sample maps (hence no cross-talk between
-entries).  Refuted with witnesses (known findings): the dipole's `if torch.any(length != 0)` and the
-cavity's `if torch.any(delta_energy > 0)` make one entry's result depend on its neighbours.
+entries).  The dipole's zero-length body is decided per entry (`torch.where`, since the `fix:`
+commit; `dipole_batched_eq_map`).  Refuted with a witness (known finding): the cavity's
+`if torch.any(delta_energy > 0)` makes one entry's result depend on its neighbours.
 PyTorch's broadcasting / `unsqueeze` plumbing is not modelled: it is covered by the falsifier
 (batched `track` vs a Python loop over entries, incl. batch size == particle count).
 -/
@@ -79,20 +81,33 @@ theorem quad_no_crosstalk (ps qs : List (QuadP ℝ)) (E m : ℝ) (i : ℕ) (h : 
   rw [quad_batched_eq_map, quad_batched_eq_map]
   simp only [List.getElem?_map, h]
 
-/-- KNOWN FINDING (negation with a witness): in a batch mixing a zero-length and a finite-length dipole, the
-zero-length entry takes the finite-length branch: its body map is the identity, while alone it is the thin
-kick of its angle -/
-theorem dipole_length_crosstalk (E m : ℝ) :
-    let p0 : DipoleP ℝ := ⟨0, 0.1, 0, 0, 0, 0, 0, 0, 0⟩
-    let p1 : DipoleP ℝ := ⟨1, 0.1, 0, 0, 0, 0, 0, 0, 0⟩
-    ((dipoleBodyBatch [p0, p1] E m).map fun M => M.get 1 6) ≠
-      ([p0, p1].map fun p => (dipoleBody p E m).get 1 6) := by
-  intro p0 p1
+/-- batched dipole body = per-sample body, for every mixture of zero-length and finite-length entries (since the
+per-entry `fix:` of `Dipole.transfer_map`; before it a zero-length entry next to a finite-length one lost its kick —
+that cross-talk was proved as a negation with a witness here and is now a `fixed:` entry) -/
+theorem dipole_batched_eq_map (ps : List (DipoleP ℝ)) (E m : ℝ) :
+    (dipoleBodyBatch ps E m).map Mat7.toM = ps.map fun p => (dipoleBody p E m).toM :=
+  _root_.dipole_batched_eq_map ps E m
+
+/-- the coded `Dipole.transfer_map` (always `base_rmatrix`, then `torch.where(length == 0, angle, R[1, 6])`) is the
+model's `dipoleMap` (zero-length body = thin corrector) -/
+theorem dipole_code_refines_model (p : DipoleP ℝ) (E m : ℝ) : (dipoleMapCode p E m).toM = (dipoleMap p E m).toM :=
+  dipoleMapCode_toM p E m
+
+/-- no cross-talk between dipole samples -/
+theorem dipole_no_crosstalk (ps qs : List (DipoleP ℝ)) (E m : ℝ) (i : ℕ) (h : ps[i]? = qs[i]?) :
+    ((dipoleBodyBatch ps E m).map Mat7.toM)[i]? = ((dipoleBodyBatch qs E m).map Mat7.toM)[i]? := by
+  rw [dipole_batched_eq_map, dipole_batched_eq_map]
+  simp only [List.getElem?_map, h]
+
+/-- the witness of the former finding now behaves: the zero-length entry keeps its kick next to a finite-length one -/
+example (E m : ℝ) :
+    (((dipoleBodyBatch [⟨0, 0.1, 0, 0, 0, 0, 0, 0, 0⟩, ⟨1, 0.1, 0, 0, 0, 0, 0, 0, 0⟩] E m).map Mat7.toM).head?).map
+      (fun A => A 1 6) = some (0.1:ℝ) := by
+  rw [dipole_batched_eq_map]
   have e0 : Scalar.eqb (0:ℝ) (0.0:ℝ) = true := by rw [Scalar.real_eqb]; norm_num
-  have e1 : Scalar.eqb (1:ℝ) (0.0:ℝ) = false := by rw [Scalar.real_eqb_false]; norm_num
-  simp only [dipoleBodyBatch, dipoleBody, p0, p1, List.any_cons, List.any_nil, e0, e1, List.map_cons, List.map_nil]
-  simp [baseR0, baseRof, dipoleThin, Mat7.get, Mat7.row, Vec7.get]
-  norm_num
+  have h00 : (0:ℝ) = 0.0 := by norm_num
+  simp [dipoleBody, dipoleThin, Mat7.get, Mat7.row, Vec7.get, Mat7.ofRows, row7]
+  rw [if_pos h00]
 
 /-- KNOWN FINDING (negation with a witness): once any entry of the batch accelerates, the accelerating `T566`
 formula is applied to every entry; for a zero-voltage neighbour its denominator `(γ₀ − γ₁)` vanishes (NaN in
